@@ -11,13 +11,13 @@ Open Scope Z_scope.
 Definition lowcfg_orig : lowcfg :=
   mk_lowcfg [("Add", "+"); ("Sub", "-"); ("Mult", "*"); ("Div", "/"); ("FloorDiv", "/")]%string
             [("Gt", ">"); ("GtE", ">="); ("Lt", "<"); ("LtE", "<="); ("Eq", "=="); ("NotEq", "!=")]%string
-            [("/", SA, SB)]%string.
+            [("/", SA, SB)]%string false.
 
 Lemma sound_tabs_of k :
   lc_floordiv k <> [] ->
   forallb (fun o => match o with
                     | PFloorDiv => true
-                    | _ => match irop_of (lc_binops k) o with
+                    | _ => match irop_eff k o with
                            | Some io => sound_binop o io | None => true end
                     end) all_pbins = true ->
   forallb (fun o => match ircond_of (lc_cmps k) o with
@@ -108,6 +108,13 @@ Lemma or_skips_cur pre a post env t :
 Proof.
   intros Hp He. apply cond_exact_cur. cbn [evalc64].
   exact (chain_eval_decided env false pre a post Hp He).
+Qed.
+
+(* `/` on int operands is rejected once gen_binop diagnoses it *)
+Lemma truediv_rejected k a b : lc_int_truediv_rejected k = true -> lower k (PBin PTrueDiv a b) = None.
+Proof.
+  intros H. cbn [lower]. destruct (lower k a); [|reflexivity]. destruct (lower k b); [|reflexivity].
+  unfold irop_eff. rewrite H. destruct (lc_floordiv k); reflexivity.
 Qed.
 
 (* ---- gen_for *)
